@@ -187,7 +187,9 @@ TYPES = ["ValueError", "KeyError", "RuntimeError", "NameError", "mod.Err", "pkg.
          "File", "E", "\u00c9rr", "~Err", "a:b", "OSError", "json.decoder.JSONDecodeError", "Exception", "x.<locals>.L", "^x"]
 MSGS = ["", "", "boom", "name 'plarp' is not defined", "a: b", ": lead", "x\ny", "l1\nl2: z\nl3", "\nstarts", "a\n\nb",
         "  spaced  ", "\u00fcn\u00ef \u2713", "'k'", "[Errno 2] No such file or directory: 'x'", "m\n  File \"a\", line 1, in b\n    z",
-        "Exception x ignored\nmore", "unsupported operand type(s) for +: 'int' and 'str'", "~^", "t\n~~^"]
+        "Exception x ignored\nmore", "unsupported operand type(s) for +: 'int' and 'str'", "~^", "t\n~~^",
+        "x\nExceptions were ignored", "Exception", "a\nExceptionally ignored", "b\nException  ignored x", "c\nexception y ignored",
+        "d\nException ignored "]
 MARKS = ["    ^^^^", "    ~~~^~~", "      ^", "^", "", "   ", "    ~~~~~~~~^^^^^^"]
 ALPHA = "abcxyz_ .:/\\\"',()<>-~^019\u00e9\u4e2d\t"
 
@@ -349,19 +351,24 @@ RAW_SEEDS = [
     'Exception x ignored', 'Traceback (most recent call last):\nException y ignored',
     '  File "x.py", line \u0663\u0664 tail\n  y\n ^\nSyntaxError: z',
     '  File "x.py", line 3, in <module>\n    1/0\n    ~^~\nZeroDivisionError: division by zero',
+    'Traceback (most recent call last)\n  File "a.py", line 1, in f\n    s()\nE: m',
+    'Traceback (most recent call last):x\n  File "a.py", line 1, in f\nE',
+    'Traceback (most recent call last)::\nE: m', 'traceback (most recent call last):\nE',
+    'Traceback (most recent call last): \nE\nExceptions ignored',
 ]
 
 
 def gen_raw(rng, tier):
     r = rng.random()
-    if r < 0.3:
+    if r < 0.35:
         text = rng.choice(RAW_SEEDS)
     else:
         base = gen_rt(rng, tier)
         base["renderer"] = "plain"
         lines = plain_render(base).split("\n")
         for _ in range(rng.randint(1, 3)):
-            op = rng.choice(["del", "dup", "swap", "trunc", "indent", "dedent", "ins", "crlf", "se", "tail", "lead", "chop"])
+            op = rng.choice(["del", "dup", "swap", "trunc", "indent", "dedent", "ins", "crlf", "se", "tail", "lead", "chop", "header",
+                             "tail"])
             if op == "del" and lines:
                 del lines[rng.randrange(len(lines))]
             elif op == "dup" and lines:
@@ -387,7 +394,13 @@ def gen_raw(rng, tier):
             elif op == "se":
                 lines = lines[1:-1] + ["    ^", "SyntaxError: invalid syntax"]
             elif op == "tail":
-                lines += rng.choice([["Exception KeyError ignored"], [""], ["", ""], ["Exception ignored", "Exception a ignored"]])
+                lines += rng.choice([["Exception KeyError ignored"], [""], ["", ""], ["Exception ignored", "Exception a ignored"],
+                                     ["Exceptions ignored"], ["ExceptionGroup was ignored"], ["Exception ignored."], [" Exception x ignored"],
+                                     ["Exception x ignored", "Exceptional ignored"]])
+            elif op == "header" and lines:
+                lines[0] = rng.choice(["Traceback (most recent call last)", "Traceback (most recent call last): ", "Traceback (most recent call last):x",
+                                       "traceback (most recent call last):", " \tTraceback (most recent call last):\u00a0", "Traceback (most recent call last)::",
+                                       "Traceback (most recent call first):", "xTraceback (most recent call last):"])
             elif op == "lead":
                 lines = rng.choice([[""], ["  "], ["\x0c"]]) + lines
             elif op == "chop" and lines:
